@@ -210,7 +210,18 @@ func c27GenCase(rt *rapid.T) c27Case {
 			req.Stmts = append(req.Stmts, c27Stmt{SQL: "BEGIN", Class: "begin"})
 			closeAt = rapid.IntRange(0, n-1).Draw(rt, "closeat")
 		}
+		// optional savepoint block whose writes are undone by ROLLBACK TO
+		spAt := -1
+		if rapid.IntRange(0, 5).Draw(rt, "savepoint") == 0 {
+			spAt = rapid.IntRange(0, n-1).Draw(rt, "spat")
+		}
 		for i := 0; i < n; i++ {
+			if i == spAt {
+				req.Stmts = append(req.Stmts, c27Stmt{SQL: "SAVEPOINT sp", Class: "savepoint"})
+				req.Stmts = append(req.Stmts, c27GenStmt(rt, r*10+i+5, &uctr))
+				req.Stmts = append(req.Stmts, c27Stmt{SQL: "ROLLBACK TO sp", Class: "rollback-to"})
+				req.Stmts = append(req.Stmts, c27Stmt{SQL: "RELEASE sp", Class: "release"})
+			}
 			req.Stmts = append(req.Stmts, c27GenStmt(rt, r*10+i, &uctr))
 			if i == closeAt {
 				end := rapid.SampledFrom([]string{"COMMIT", "ROLLBACK", "ROLLBACK"}).Draw(rt, "end")
@@ -692,12 +703,15 @@ func c27IsErr(r *command.ExecuteQueryResponse) bool {
 
 // c27Classify names the shape of a failing request.
 func c27Classify(req c27Req, failed []bool) string {
-	inExplicit, failedInExplicit, anyFailed, rollback := false, false, false, false
+	inExplicit, failedInExplicit, anyFailed, rollback, rollbackTo := false, false, false, false, false
 	ri := 0
 	for _, s := range req.Stmts {
 		f := ri < len(failed) && failed[ri]
 		ri++
 		switch s.Class {
+		case "rollback-to":
+			rollbackTo = true
+		case "savepoint", "release":
 		case "begin":
 			inExplicit = true
 		case "commit":
@@ -706,7 +720,7 @@ func c27Classify(req c27Req, failed []bool) string {
 			inExplicit = false
 			rollback = true
 		}
-		if f && s.Class != "begin" && s.Class != "commit" && s.Class != "rollback" {
+		if f && s.Class != "begin" && s.Class != "commit" && s.Class != "rollback" && s.Class != "savepoint" && s.Class != "rollback-to" && s.Class != "release" {
 			anyFailed = true
 			if inExplicit {
 				failedInExplicit = true
@@ -714,6 +728,8 @@ func c27Classify(req c27Req, failed []bool) string {
 		}
 	}
 	switch {
+	case rollbackTo:
+		return "C27/phantom-events-after-rollback-to-savepoint"
 	case failedInExplicit:
 		return "C27/phantom-events-from-failed-statement-in-explicit-tx"
 	case rollback:
@@ -725,6 +741,7 @@ func c27Classify(req c27Req, failed []bool) string {
 }
 
 var c27KnownWhat = map[string]string{
+	"C27/phantom-events-after-rollback-to-savepoint":          "events of changes undone by ROLLBACK TO a savepoint are emitted when the enclosing transaction commits",
 	"C27/phantom-events-from-failed-statement":                "events of a statement that failed (and was rolled back) are emitted with the next commit of the same request",
 	"C27/phantom-events-after-explicit-rollback":              "events of an explicitly rolled-back transaction are emitted with the next commit of the same request",
 	"C27/phantom-events-from-failed-statement-in-explicit-tx": "events of a statement that failed inside an explicit transaction are emitted when the transaction commits",
@@ -976,7 +993,7 @@ func c27Run(rt *rapid.T, rec *vstat.Rec, env *c27Env, c c27Case) {
 
 func TestVerif_C27_Store(t *testing.T) {
 	rec := vstat.New(t, "C27", "store",
-		"rapid: 1-3 write requests of 1-5 statements (single/multi-row INSERT, OR REPLACE/IGNORE/FAIL, UPSERT, UPDATE incl. rowid-changing, UNIQUE-violating, OR REPLACE and no-op, DELETE incl. whole table and FK cascade, trigger-driven writes, FK/UNIQUE/PK failures after earlier rows of the statement fired, syntax errors, explicit BEGIN..COMMIT/ROLLBACK, transaction flag on/off, Store.Execute and Store.Request) over four tables with INTEGER/REAL/TEXT/BLOB/NUMERIC/untyped columns, rowid alias and plain rowid, values of every storage class; Store.EnableCDC with table filter none/5 regexes, row-ids-only on/off; one real single-node store per process, schema recreated (CDC off) per case; non-trivial = events were emitted and the program has a failing statement or a multi-event group; distinct by full program text")
+		"rapid: 1-3 write requests of 1-5 statements (single/multi-row INSERT, OR REPLACE/IGNORE/FAIL, UPSERT, UPDATE incl. rowid-changing, UNIQUE-violating, OR REPLACE and no-op, DELETE incl. whole table and FK cascade, trigger-driven writes, FK/UNIQUE/PK failures after earlier rows of the statement fired, syntax errors, explicit BEGIN..COMMIT/ROLLBACK, SAVEPOINT..ROLLBACK TO..RELEASE blocks, transaction flag on/off, Store.Execute and Store.Request) over four tables with INTEGER/REAL/TEXT/BLOB/NUMERIC/untyped columns, rowid alias and plain rowid, values of every storage class; Store.EnableCDC with table filter none/5 regexes, row-ids-only on/off; one real single-node store per process, schema recreated (CDC off) per case; non-trivial = events were emitted and the program has a failing statement or a multi-event group; distinct by full program text")
 	env, err := c27NewEnv()
 	if err != nil {
 		t.Skipf("infrastructure: %v", err)
